@@ -4,6 +4,7 @@ def b_Obstacle_create_obstacle_node_header : CR.SrcW.Builder where
   kind := .node
   tag := "?obstacle_role.value + 'Obstacle'"
   xsd := "staticObstacle"
+  path := []
   parent := ""
   attrs := [("id", (.str "_"))]
   gattrs := []
@@ -16,7 +17,8 @@ def b_Obstacle_create_obstacle_node_header_type : CR.SrcW.Builder where
   key := "ObstacleXMLNode.create_obstacle_node_header/type"
   kind := .node
   tag := "type"
-  xsd := ""
+  xsd := "staticObstacle"
+  path := ["type"]
   parent := "ObstacleXMLNode.create_obstacle_node_header"
   attrs := []
   gattrs := []
